@@ -394,7 +394,7 @@ func (*c01Engine) Generate(seed uint64, tier string) *Case {
 	// errors and as one non-replayable violation). Stacks below 200 slots are therefore rare
 	// and the worker process is recycled after each such case.
 	p.InitStack = Pick(r, []int{200, 300, 300, 600, defInitStack, defInitStack})
-	if r.Chance(0.05) {
+	if r.Chance(0.02) {
 		p.InitStack = Pick(r, []int{64, 80, 128})
 	}
 	p.CallStack = Pick(r, []int{64, 200, defCallStack})
